@@ -72,6 +72,14 @@ CHECKS = {
         note=PROOF_NOTE + "Modelled, not verified: float expressions round(width*fraction) and int(sqrt(rows*cols*scale/pi)) (inputs L and r of the theorems); ACS subset of mask is decided by oracle only; CIRCUS largest-disc ACS (center_fraction 0) only through the subset oracle.",
         technique="Coq proof (lia over regenerated centre arithmetic) + exhaustive exact correspondence + generator oracles",
         design="§6 C06"),
+    "C07": dict(
+        text="The rational budget expressions are regenerated on every run (RandomMaskFunc.prob, EquispacedMaskFunc.adjusted_accel, Gaussian1D/2D nonzero_count, the kernels' +1 from the .pyx loop condition) and proved over Q: "
+             "random masks have expected count L + (N-L)*prob = N/R with 0 <= prob <= 1 under feasibility; spacing N-L columns by the adjusted acceleration yields N/R - L of them; Gaussian 1-D/2-D counts are within half a sample of N/R (NM/R) for any nearest-integer rounding. "
+             "Gaussian counts are tied by exact correspondence (widths 32-400, sizes to 128x128, accelerations incl. 5.5) with the Q model using round-half-even. "
+             "The +-2 column discretisation of equispaced masks, the Poisson tolerance and the >= 400 (quick) / 2000 (thorough) seed statistics of random masks are oracles / statistical support, not proof.",
+        note=PROOF_NOTE + "Modelled, not verified: numpy rounding as nearest-integer rounding; uniform independent draws behind 'in expectation'; np.arange/np.around discretisation; the Poisson kernel.",
+        technique="Coq proof (field / linear rational arithmetic over regenerated expressions) + exact count correspondence + statistical oracles",
+        design="§6 C07"),
     "C12": dict(
         text="Theorems for every file list, slice filter (step 1), context size and index: per-volume ranges are contiguous/ordered/partition 0..len-1, the i-th range holds exactly the admissible slices of file i in order, "
              "the context window has 2c+1 entries with entry j = slice s-c+j or a zero slice, and ConcatDataset's negative-index normalisation + bisect_right + offset lands in the member containing the index. "
